@@ -848,8 +848,19 @@ def taint2(ctx):
             if not re.search(INDEX_RE, cs.name) or len(cs.args) < 2:
                 continue
             rl = op_local(cs.args[1])
+            # the header peek `[cursor..][..HEADER_LEN]` is not a payload slice (its room is FR7's business)
+            is_header_peek = False
+            if cs.dest_local() is not None:
+                kn = alias_paths(b, cs.dest_local())
+                for c2 in b.calls:
+                    if re.search(INDEX_RE, c2.name) and len(c2.args) > 1 and c2.arg_local(0) in kn:
+                        for o2 in (b.trace_local(op_local(c2.args[1])) if op_local(c2.args[1]) is not None else []):
+                            if o2[0] == 'rv' and o2[2]['k'] == 'agg' and o2[2].get('adt', '').endswith('ops::RangeTo') and (op_const_named(o2[2]['ops'][0]) or '').endswith('HEADER_LEN'):
+                                is_header_peek = True
+            if is_header_peek:
+                continue
             for o in (b.trace_local(rl) if rl is not None else []):
-                if o[0] == 'rv' and o[2]['k'] == 'agg' and o[2].get('adt', '').endswith('ops::RangeFrom'):
+                if o[0] == 'rv' and o[2]['k'] == 'agg' and (o[2].get('adt', '').endswith('ops::RangeFrom') or o[2].get('adt', '').endswith('ops::Range')):
                     for lf in expr_leaves(b, o[2]['ops'][0]):
                         if lf[0] == 'place' and mem_loc(lf[2]) == CUR and lf[1] is not None:
                             uses.append((cs, lf[1]))
